@@ -292,6 +292,7 @@ func historyT(r *rand.Rand, prop string, hist map[string]int) (string, any, stri
 		})},
 	})
 	var steps, input []string
+	made := map[int][]madeT{}
 	fail := ""
 	n := 4 + r.Intn(9)
 	noClose := false
@@ -332,7 +333,17 @@ func historyT(r *rand.Rand, prop string, hist map[string]int) (string, any, stri
 				if s < len(opening) {
 					t = ts[opening[s]]
 				}
-				sb, g := w.instantiate(t)
+				var sb *symbol.Symbol
+				var g string
+				if prev := made[t.id]; prop != "C08" && len(prev) > 0 && r.Intn(4) == 0 {
+					// the same symbol object comes back (still present, or freed earlier)
+					k := r.Intn(len(prev))
+					sb, g = prev[k].sb, prev[k].g
+					hist["insert-same-object"]++
+				} else {
+					sb, g = w.instantiate(t)
+					made[t.id] = append(made[t.id], madeT{sb, g})
+				}
 				old := w.live[t.id]
 				w.live[t.id] = sb
 				res = "TDone true"
@@ -424,6 +435,11 @@ func historyT(r *rand.Rand, prop string, hist map[string]int) (string, any, stri
 		uni = append(uni, fmt.Sprintf("%d ns%d name=%q kind=%d ports=%v", t.id, t.ns, t.name, t.kind, t.ports))
 	}
 	return g, map[string]any{"universe": uni, "ops": input}, fail, sharedSeen
+}
+
+type madeT struct {
+	sb *symbol.Symbol
+	g  string
 }
 
 // oracle08 evaluates C08 on the notifications of one table operation.
